@@ -3,6 +3,7 @@ import Nstd.Seq.Lemmas
 /-
   The cell-level loops of RawArray.lean compute what the list functions of the `AState` model say.
 -/
+set_option linter.unusedSectionVars false
 namespace Nstd.Seq.Raw
 
 /-- the block of `cap` cells whose first cells hold `es` and whose other cells are raw -/
@@ -114,6 +115,8 @@ theorem readAll_img (es : List Int) (cap : Nat) : ∀ (k i : Nat), i + k = es.le
     simp only [readAll, readCell_img es cap i hi, ih (i + 1) (by omega), Option.map_some]
     rw [List.drop_eq_getElem_cons hi]
 
+variable [ArrCfg]
+
 /-- the cell-level array `r` represents the `AState` `a` -/
 def Rel (r : RArr) (a : AState) : Prop :=
   r.cap = a.cap ∧
@@ -149,8 +152,8 @@ theorem reserve_rel (r : RArr) (a : AState) (h : Rel r a) (n : Nat) :
     obtain ⟨h1, h2⟩ := hd
     by_cases c : n > cap ∨ n > 0
     · have c' : n > cap ∨ (True ∧ n > 0) := by simpa using c
-      refine ⟨{ cap := (if n > cap then n else cap) ||| 3,
-                cells := some (List.replicate ((if n > cap then n else cap) ||| 3) none), n := 0 }, ?_, ?_⟩
+      refine ⟨{ cap := (if n > cap then n else cap) ||| ArrCfg.mask,
+                cells := some (List.replicate ((if n > cap then n else cap) ||| ArrCfg.mask) none), n := 0 }, ?_, ?_⟩
       · simp [reserve, hc, h1, c]
       · simp only [AState.reserve, Option.isNone_none, true_and, c, if_true]
         exact ⟨rfl, by simp [img], rfl, by simp⟩
@@ -161,12 +164,12 @@ theorem reserve_rel (r : RArr) (a : AState) (h : Rel r a) (n : Nat) :
     obtain ⟨h1, h2, h3⟩ := hd
     simp only at h1 h3
     by_cases c : n > cap
-    · have hle : es.length ≤ n ||| 3 := by have := @Nat.left_le_or n 3; omega
-      have hm := moveLoop_img es cap (n ||| 3) hle es.length 0 (by omega)
+    · have hle : es.length ≤ n ||| ArrCfg.mask := by have := @Nat.left_le_or n ArrCfg.mask; omega
+      have hm := moveLoop_img es cap (n ||| ArrCfg.mask) hle es.length 0 (by omega)
       simp only [List.take_zero] at hm
-      have hi : img [] (n ||| 3) = List.replicate (n ||| 3) none := by simp [img]
+      have hi : img [] (n ||| ArrCfg.mask) = List.replicate (n ||| ArrCfg.mask) none := by simp [img]
       rw [hi] at hm
-      refine ⟨{ cap := n ||| 3, cells := some (img es (n ||| 3)), n := es.length }, ?_, ?_⟩
+      refine ⟨{ cap := n ||| ArrCfg.mask, cells := some (img es (n ||| ArrCfg.mask)), n := es.length }, ?_, ?_⟩
       · simp [reserve, hc, h1, c, h2, hm]
       · simp only [AState.reserve, c, true_or, if_true]
         exact ⟨rfl, rfl, rfl, hle⟩
